@@ -32,15 +32,15 @@ ASSUMPTIONS = [
 TIMEOUT = {"quick": 45, "thorough": 120}
 DEADLINE = {"quick": 75, "thorough": 1100}
 MIN_DECIDING = {"quick": 60, "thorough": 600}
-NDIRECT = {"quick": 150, "thorough": 2600}
+NDIRECT = {"quick": 300, "thorough": 2600}
 NCLI = {"quick": 30, "thorough": 400}
 MAX_REPORT = 3
 
 
 def degree_bound(k, tier):
     if tier == "quick":
-        return 3 if k <= 3 else 2
-    return 4 if k <= 3 else 3
+        return 3
+    return 4
 
 
 def generate(seed, tier):
@@ -194,7 +194,7 @@ def run_cli_case(case, tier):
         res.update(verdict="inconclusive", reason="cli-parse-mismatch")
         return res
     basis_exprs = [e for _, e in polys]
-    D = degree_bound(k, tier) if k <= 4 else 2
+    D = degree_bound(k, tier) if k <= 3 else (degree_bound(k, tier) - 1 if k == 4 else 2)
     monos = CF.monomials_upto(k, D)
     L = len(monos) + 10
     n0 = s + 1
